@@ -338,13 +338,14 @@ def findBidi (c : Ctx) (l : Loc) : Option Nat := findBidiKids c l.focus.kids
 
 /-- `match_dir(el, directionality)`; the recursion on the parent is a walk over
     `el :: ancestors` (with `no_iframe=True`). -/
-def matchDirWalk (c : Ctx) (directionality : Nat) : List Loc → Bool
+def matchDirWalk (c : Ctx) (directionality : Nat) (inherit : Bool) : List Loc → Bool
   | [] => false                       -- `el is None`
   | l :: parents =>
     match l.elem? with
     | none => false
     | some e =>
-      if !c.isHtmlTag e then false
+      -- a foreign element never matches itself; as an ancestor it passes the question on upwards
+      if !c.isHtmlTag e then inherit && matchDirWalk c directionality true parents
       else
         let direction : Option Nat :=
           match (c.attrByName e "dir".toStr).getD (.str []) with
@@ -377,13 +378,13 @@ def matchDirWalk (c : Ctx) (directionality : Nat) : List Loc → Bool
                 | some d => d == directionality
                 | none => SEL_DIR_LTR == directionality
               else if isRoot then SEL_DIR_LTR == directionality
-              else matchDirWalk c directionality parents
+              else matchDirWalk c directionality true parents
             else
               match findBidi c l with
               | some d => d == directionality
               | none =>
                 if isRoot then SEL_DIR_LTR == directionality
-                else matchDirWalk c directionality parents
+                else matchDirWalk c directionality true parents
         | none =>
           let isRoot := c.isRoot l
           if isRoot then SEL_DIR_LTR == directionality
@@ -400,13 +401,13 @@ def matchDirWalk (c : Ctx) (directionality : Nat) : List Loc → Bool
             else if name == "bdi".toStr then
               match findBidi c l with
               | some d => d == directionality
-              | none => matchDirWalk c directionality parents
-            else matchDirWalk c directionality parents
+              | none => matchDirWalk c directionality true parents
+            else matchDirWalk c directionality true parents
 
 /-- `match_dir`. -/
 def matchDir (c : Ctx) (l : Loc) (directionality : Nat) : Bool :=
   if hasFlag directionality SEL_DIR_LTR && hasFlag directionality SEL_DIR_RTL then false
-  else matchDirWalk c directionality (l :: c.ancestors l true)
+  else matchDirWalk c directionality false (l :: c.ancestors l true)
 
 /-- The `form` an element belongs to for `:default` (`match_default`'s parent walk). -/
 def defaultForm (c : Ctx) (l : Loc) : Option Loc :=
@@ -426,7 +427,7 @@ def firstSubmit (c : Ctx) : List Loc → Option Loc
       if name == "form".toStr then none
       else if name == "input".toStr || name == "button".toStr then
         match (c.attrByName e "type".toStr).getD (.str []) with
-        | .str v => if !v.isEmpty && lower v == "submit".toStr then some ch else firstSubmit c rest
+        | .str v => if !v.isEmpty && (if !c.isXml then lower v else v) == "submit".toStr then some ch else firstSubmit c rest
         | .list _ => firstSubmit c rest
       else firstSubmit c rest
 
